@@ -2222,6 +2222,7 @@ package spec
 // the padded encoding of SwaggerProps / OperationProps: what is sent (GobEncode) and what is rebuilt from it (GobDecode)
 //@ func (SwaggerProps).GobEncode
 //@   property C14
+//@   appendview
 //@   requires len(o.Security) >= 0 && (o.Security == nil ==> len(o.Security) == 0)
 //@   ensures  [C14] alias-sent @@ result1 == nil ==> gobPad[gobStream(result0)].Alias != nil
 //@   ensures  [C14] empty-flag-sent @@ result1 == nil ==> gobPad[gobStream(result0)].SecurityIsEmpty == (o.Security != nil && len(o.Security) == 0)
@@ -2230,6 +2231,8 @@ package spec
 //@   ensures  [C14] strings-sent @@ result1 == nil ==> gobPadAlias[gobStream(result0)].Swagger == o.Swagger && gobPadAlias[gobStream(result0)].Host == o.Host && gobPadAlias[gobStream(result0)].BasePath == o.BasePath && gobPadAlias[gobStream(result0)].ID == o.ID
 //@   loop 0 invariant 0 <= $i0 && $i0 <= len(o.Security) && len(raw.Security) == $i0 && raw.Alias != nil && !raw.SecurityIsEmpty
 //@   loop 0 invariant len(raw.Alias.Security) == len(o.Security) && raw.Alias.Swagger == o.Swagger && raw.Alias.Host == o.Host && raw.Alias.BasePath == o.BasePath && raw.Alias.ID == o.ID
+//@   loop 0 invariant [C14] each-padded-requirement-owns-its-map @@ forall i int, j int :: 0 <= i && i < j && j < len(raw.Security) ==> raw.Security[i] != raw.Security[j]
+//@   loop 0 invariant live(sliceArr(raw.Security)) && (forall i int :: 0 <= i && i < len(raw.Security) ==> raw.Security[i] != nil && live(raw.Security[i]))
 
 //@ func (*SwaggerProps).GobDecode
 //@   property C14
@@ -2248,6 +2251,7 @@ package spec
 
 //@ func (OperationProps).GobEncode
 //@   property C14
+//@   appendview
 //@   requires len(op.Security) >= 0 && (op.Security == nil ==> len(op.Security) == 0)
 //@   ensures  [C14] alias-sent @@ result1 == nil ==> gobOpPad[gobStream(result0)].Alias != nil
 //@   ensures  [C14] empty-flag-sent @@ result1 == nil ==> gobOpPad[gobStream(result0)].SecurityIsEmpty == (op.Security != nil && len(op.Security) == 0)
@@ -2256,6 +2260,8 @@ package spec
 //@   ensures  [C14] strings-sent @@ result1 == nil ==> gobOpPadAlias[gobStream(result0)].Description == op.Description && gobOpPadAlias[gobStream(result0)].Summary == op.Summary && gobOpPadAlias[gobStream(result0)].ID == op.ID && gobOpPadAlias[gobStream(result0)].Deprecated == op.Deprecated
 //@   loop 0 invariant 0 <= $i0 && $i0 <= len(op.Security) && len(raw.Security) == $i0 && raw.Alias != nil && !raw.SecurityIsEmpty
 //@   loop 0 invariant len(raw.Alias.Security) == len(op.Security) && raw.Alias.Description == op.Description && raw.Alias.Summary == op.Summary && raw.Alias.ID == op.ID && raw.Alias.Deprecated == op.Deprecated
+//@   loop 0 invariant [C14] each-padded-requirement-owns-its-map @@ forall i int, j int :: 0 <= i && i < j && j < len(raw.Security) ==> raw.Security[i] != raw.Security[j]
+//@   loop 0 invariant live(sliceArr(raw.Security)) && (forall i int :: 0 <= i && i < len(raw.Security) ==> raw.Security[i] != nil && live(raw.Security[i]))
 
 //@ func (*OperationProps).GobDecode
 //@   property C14
